@@ -76,8 +76,17 @@ func populated(seed uint64) (*types.Project, *zsimrt.FS) {
 	}
 	sort.Strings(names)
 	fileNo := 0
+	sortedNames := func(m types.Services) []string {
+		ks := make([]string, 0, len(m))
+		for k := range m {
+			ks = append(ks, k)
+		}
+		sort.Strings(ks)
+		return ks
+	}
 	fixRefs := func(m types.Services) {
-		for n, s := range m {
+		for _, n := range sortedNames(m) {
+			s := m[n]
 			deps := types.DependsOnConfig{}
 			vals := make([]types.ServiceDependency, 0)
 			dk := make([]string, 0)
@@ -125,7 +134,8 @@ func populated(seed uint64) (*types.Project, *zsimrt.FS) {
 	}
 	nets, vols, secs, cfgs := sorted(proj.Networks), sorted(proj.Volumes), sorted(proj.Secrets), sorted(proj.Configs)
 	link := func(m types.Services) {
-		for n, s := range m {
+		for _, n := range sortedNames(m) {
+			s := m[n]
 			if len(nets) > 0 && len(s.Networks) > 0 {
 				nk := sorted(s.Networks)
 				v := s.Networks[nk[0]]
@@ -459,6 +469,7 @@ func c14Run(c *Ctx, r *zsimrt.Run) {
 
 func c14Exec(c *Ctx, sc *c14Scenario, minimise bool) {
 	out := runC14(sc)
+	c.Trace(out.Digest + strings.Join(out.Log, "\n") + fmt.Sprint(len(out.Problems)))
 	c.Count("histories", 1)
 	c.Count("derivations", out.Derived)
 	c.Count("in-place-mutations", out.Mutated)
